@@ -332,7 +332,7 @@ def suites_for(pid, rng, tier):
            kind "nsim" = like "scan" (model trace compared under the projection, monitor on the implementation's trace), without the corpus and
            without the extracted single-level predicates"""
         for c in cfgs:
-            S.append((name, c, "nsim", gen.gen_nest(rng, ks // 2, "y" + c[0], combs=tuple(x for x in ("nest_jj", "nest_mm", "nest_jt", "nest_gj", "nest_gm", "nest_jr", "nest_rj", "nest_cm", "nest_zm") if x not in skip))))
+            S.append((name, c, "nsim", gen.gen_nest(rng, ks // 2, "y" + c[0], combs=tuple(x for x in ("nest_jj", "nest_mm", "nest_jt", "nest_gj", "nest_gm", "nest_jr", "nest_rj", "nest_cm", "nest_zm", "nest_tt") if x not in skip))))
     if pid == "C01":
         fixed("wake", CFG3, SCAN4 + ["race", "race_ok", "chain"])
         fixed("wake-large", ("std", "alloc"), SCAN4, ks // 4, large=True)
